@@ -1,7 +1,7 @@
 (* C18 — property theorems.  Only statements, [exact lemma] and Print Assumptions.
    [dec] (the brotli decoder) is universally quantified in every statement that mentions it. *)
 From Coq Require Import ZArith List Bool Permutation.
-From FV Require Import Lib.RustInt C18.Model C18.Proofs.
+From FV Require Import Lib.RustInt C18.Model C18.Proofs C18.Runs2 C18.Grouping2.
 Import ListNotations.
 Open Scope Z_scope.
 
@@ -277,6 +277,72 @@ Theorem c18_glyph_patches_decode_encode : forall wide gids tables offs blob,
   inr {| gp_gids := gids; gp_tables := tables; gp_offs := offs; gp_raw := gp_encode wide gids tables offs blob |}.
 Proof. exact gp_read_encode. Qed.
 
+(* ---------- round 7 ---------- *)
+(* the converse of c18_run_loop_is_glyph_loop: whenever the glyph-by-glyph specification succeeds, the literal
+   run-by-run loop (given fuel for one iteration per run, as patch_offset_array supplies) returns the same offsets
+   and data appended to its accumulators *)
+Theorem c18_run_loop_complete : forall offs data T e_off maxgid, ascending offs = true ->
+  forall fuel gid (m : gmap) w ao ad os' ds',
+  0 <= gid <= maxgid + 1 -> gm_ok m -> Forall (fun gd => gid <= fst gd <= maxgid) m ->
+  (length (runs_from (map fst m)) + length (keep_from gid (map fst m) maxgid) < fuel)%nat ->
+  build_loop (Z.to_nat (maxgid + 1 - gid)) gid m offs data T e_off w = inr (os', ds') ->
+  build_runs fuel (runs_from (map fst m)) (keep_from gid (map fst m) maxgid) (map snd m)
+             offs data T e_off w ao ad = inr (ao ++ os', ad ++ ds').
+Proof. exact build_runs_complete. Qed.
+(* hence literal loop and specification succeed on exactly the same inputs (any sorted duplicate-free gid map
+   with replacement data, any ascending base offsets, any data, any offset type, any start glyph / running
+   offset / accumulators) with exactly the same offsets and data.  The error VALUES may differ
+   (Examples2.v c18_run_loop_error_differs), so the equality is on the success part [ok_of]. *)
+Theorem c18_build_runs_eq_build_loop : forall offs data T e_off maxgid, ascending offs = true ->
+  forall fuel gid (m : gmap) w ao ad,
+  0 <= gid <= maxgid + 1 -> gm_ok m -> Forall (fun gd => gid <= fst gd <= maxgid) m ->
+  (length (runs_from (map fst m)) + length (keep_from gid (map fst m) maxgid) < fuel)%nat ->
+  ok_of (build_runs fuel (runs_from (map fst m)) (keep_from gid (map fst m) maxgid) (map snd m)
+                    offs data T e_off w ao ad) =
+  option_map (fun od => (ao ++ fst od, ad ++ snd od))
+             (ok_of (build_loop (Z.to_nat (maxgid + 1 - gid)) gid m offs data T e_off w)).
+Proof. exact build_runs_eq_build_loop. Qed.
+(* ... and patch_offset_array as coded (literal loop, the fuel it passes) = patch_offset_array over the
+   specification loop, on the success part *)
+Theorem c18_patch_offset_array_is_spec : forall views t offs chk data T avail e_off maxgid, 0 <= maxgid ->
+  (ascending chk = true -> ascending offs = true) ->
+  (forall m, dedup views t = inr m -> Forall (fun gd => 0 <= fst gd) m) ->
+  ok_of (patch_offset_array_gen views t offs chk data T avail e_off maxgid) =
+  ok_of (patch_offset_array_spec views t offs chk data T avail e_off maxgid).
+Proof. exact poa_is_spec. Qed.
+
+(* grouping independence of the generic offset array (the glyf, gvar, CFF and CFF2 branches all go through
+   patch_offset_array): one call with v1 ++ v2 gives the same offsets and data as v1 and then v2 on what the
+   next call reads back, if the patches agree on shared glyphs, the re-read array has the builder's per-glyph
+   slices, and the offset type T' is the same in the three applications.  The last hypothesis cannot be dropped
+   (widths never narrow: F-C18-4).
+   NOT proved: c18_grouping_independent_gvar as equality of whole fonts with gvar listed — missing is
+   read_gvar (gvar_assemble ..) = the same header with the builder's offsets (byte-level re-read of the
+   20-byte header, flag byte, shared tuples); the data placement part is c18_gvar_data_placement_slices. *)
+Theorem c18_offset_array_grouping : forall v1 v2 t offs data offs2 data2 T T' avail e_off e_off2 maxgid os1 ds1 os2 ds2 os12 ds12,
+  0 <= maxgid -> gids_nonneg (v1 ++ v2) -> views_agree t (v1 ++ v2) ->
+  patch_offset_array v1 t offs data T avail e_off maxgid = inr (T', os1, ds1) ->
+  patch_offset_array v2 t offs2 data2 T' avail e_off2 maxgid = inr (T', os2, ds2) ->
+  patch_offset_array (v1 ++ v2) t offs data T avail e_off maxgid = inr (T', os12, ds12) ->
+  (forall g, 0 <= g <= maxgid -> old_slice offs2 data2 g = old_slice os1 ds1 g) ->
+  os2 = os12 /\ ds2 = ds12.
+Proof. exact poa_grouping. Qed.
+Theorem c18_gvar_data_placement_slices : forall (pre ds : bytes) (os : list Z) g,
+  Forall (fun o => 0 <= o) os -> 0 <= g ->
+  old_slice (map (fun o => len pre + o) os) (pre ++ ds) g = old_slice os ds g.
+Proof. exact shifted_slices. Qed.
+
+(* loca decode o encode = id for both widths: a font whose loca is the encoding of offsets that are
+   non-negative, representable in the head format's width and multiples of its divisor reads back exactly
+   those offsets (the exact-boundary hypothesis is off_good: w / div + bias < 2^(8 width), i.e. short: w <= 131070) *)
+Theorem c18_loca_roundtrip : forall (F : font) (h : bytes) fmt T os,
+  lookup F T_head = Some h -> 54 <= len h -> uN_at 2 h 50 = Some fmt ->
+  T = (if fmt =? 1 then ot_long else ot_short) ->
+  lookup F T_loca = Some (encode_offsets T os) -> Forall (off_good T) os ->
+  read_loca F = Some (T, os).
+Proof. exact read_loca_rebuilt. Qed.
+
+
 Print Assumptions c18_table_keyed_exact.
 Print Assumptions c18_incompatible_before_any_decode.
 Print Assumptions c18_glyph_keyed_exact.
@@ -307,3 +373,9 @@ Print Assumptions c18_cff_is_the_builder_output.
 Print Assumptions c18_glyph_keyed_exact_partial_check.
 Print Assumptions c18_width_order_independent_growth_only.
 Print Assumptions c18_glyph_patches_decode_encode.
+Print Assumptions c18_run_loop_complete.
+Print Assumptions c18_build_runs_eq_build_loop.
+Print Assumptions c18_patch_offset_array_is_spec.
+Print Assumptions c18_offset_array_grouping.
+Print Assumptions c18_gvar_data_placement_slices.
+Print Assumptions c18_loca_roundtrip.
